@@ -217,12 +217,37 @@ Proof.
         rewrite A6; [exact X1|]. intros ->. contradiction.
 Qed.
 
+Lemma named_in_grown s o Ms : forall Us Us', Forall2 (named_in s) Ms Us -> Forall2 (grown o) Us Us' ->
+  Forall2 (named_in s) Ms Us'.
+Proof.
+  induction Ms as [|M r IH]; intros Us Us' A B; inversion A as [|? U ? Ur HMU Hr]; subst;
+    inversion B as [|? U' ? Ur' HUU Hrr]; subst; constructor.
+  - intros v Hv. destruct (HMU v Hv) as [x [X1 [X2 X3]]]. exists x. split; [exact X1|]. split; [exact X2|].
+    apply (proj1 HUU). exact X3.
+  - eapply IH; eassumption.
+Qed.
+
+Lemma GInv_record v g s : GInv g s -> GInv g (record_captured v s).
+Proof.
+  intros [A B C D F]. constructor; simpl; try assumption.
+  change (Forall2 (named_in s) (g_m g) (rc_scopes v s)).
+  eapply named_in_grown; [exact A | apply rc_scopes_grown].
+Qed.
+
+Lemma process_value_rec_ghost v s s' g :
+  process_value_rec v s = (s', None) -> GInv g s -> GInv (touches [v] g) s'.
+Proof.
+  intros H G. destruct (process_value_rec_ok _ _ _ H) as [s1 [E ->]].
+  pose proof (process_value_ghost v s s1 g E G) as G1.
+  destruct (negb (memN v (f_seen s))); [apply GInv_record; exact G1 | exact G1].
+Qed.
+
 Lemma process_values_ghost ws : forall s s' g,
   process_values ws s = (s', None) -> GInv g s -> GInv (touches ws g) s'.
 Proof.
   induction ws as [|v r IH]; intros s s' g H G; simpl in H.
   - inversion H; subst. apply (GInv_equiv g); [apply geq_sym, touches_nil | exact G].
-  - unfold fbind in H. destruct (process_value v s) as [s1 [e|]] eqn:E1; simpl in H; [inversion H|].
+  - unfold fbind in H. destruct (process_value_rec v s) as [s1 [e|]] eqn:E1; simpl in H; [inversion H|].
     apply (GInv_equiv (touches r (touches [v] g))); [apply touches_cons|].
-    apply (IH s1 s' _ H). apply (process_value_ghost v s s1 g E1 G).
+    apply (IH s1 s' _ H). apply (process_value_rec_ghost v s s1 g E1 G).
 Qed.
